@@ -394,7 +394,11 @@ def run(rec):
                 try:
                     got = uri.decode(t, unquote_plus=plus)
                 except Exception as ex:  # noqa
-                    rec.violation('decode-raised', {'fn': 'decode', 's': t.encode('utf-8', 'surrogatepass'), 'plus': plus, 'exc': repr(ex)})
+                    # the built Cython twin encodes its argument as UTF-8 before looking for escapes
+                    known = 'cy-twin-decode-lone-surrogate-raises' if (rec.mode != 'pure' and isinstance(ex, UnicodeEncodeError)
+                                                                       and 'cyutil' in getattr(uri.decode, '__module__', '')) else None
+                    rec.violation('decode-raised', {'fn': 'decode', 's': t.encode('utf-8', 'surrogatepass'), 'plus': plus, 'exc': repr(ex)},
+                                  known_key=known)
                     continue
                 rec.count('mon.decode_surrogate_no_escape')
                 if got != (t.replace('+', ' ') if plus else t):
